@@ -333,7 +333,14 @@ func (j *judge) idToken(id, access string) {
 	// issued in the same response and the client did not opt into IDTokenUserinfoClaimsAssertion
 	var idScopes []string
 	for _, sc := range x.Scopes {
-		if !slices.Contains(e.dropID, sc) {
+		// token exchange hands the storage the request itself (SetUserinfoFromTokenExchangeRequest), no scope list:
+		// the client's restriction cannot reach it, and the statement only speaks of granted scopes (grey)
+		dropped := slices.Contains(e.dropID, sc)
+		if dropped && x.Step == "token_exchange" {
+			run.Count("grey", "token_exchange_id_token_not_subject_to_client_scope_restriction")
+			dropped = false
+		}
+		if !dropped {
 			idScopes = append(idScopes, sc)
 		}
 	}
